@@ -1349,7 +1349,7 @@ async def do_sum(
             return x
 
     async for item in auto_aiter(iterable):
-        rv += func(item)
+        rv = rv + func(item)
 
     return rv
 
